@@ -22,6 +22,8 @@ def main():
     for f in kf["findings"]:
         rows.append("| %s | `%s` | %s |" % (f["property"], f["key"], f["what_fails"].replace("|", "\\|")[:400]))
     known = "\n".join(rows)
+    dp = os.path.join(V, "seeded", "dispositions.json")
+    DISP = json.load(open(dp)) if os.path.exists(dp) else {}
     rows = ["| change | what it breaks / needs | demo with/without | suite | own check (quick) |", "|---|---|---|---|---|"]
     n = caught = 0
     for p in sorted(glob.glob(os.path.join(V, "seeded", "*", "meta.json"))):
@@ -37,8 +39,9 @@ def main():
             chk.get("exit"), chk.get("violation_lines"),
             ", no-failing-input-found" if chk.get("no_failing_input_found") and chk.get("violation_lines") == chk.get("no_failing_input_found") else "") \
             if chk.get("exit") == 1 and chk.get("violation_lines", 0) > 0 else "**missed** (exit %s)" % chk.get("exit")
-        if m.get("disposition"):
-            res += " — " + m["disposition"]
+        disp = DISP.get(name) or m.get("disposition")
+        if disp:
+            res += " — " + disp
         n += 1
         caught += 1 if "caught" in res else 0
         rows.append("| `%s` | %s — needs: %s | %s | %s | %s |" % (
